@@ -135,7 +135,7 @@ pub fn run(tier: &str, seed: u64) -> i32 {
     let mut rep = Report::new("C05", tier, seed, "exploration");
     rep.rule = "honest executions, n=2..4, every evaluator, every non-empty output subset (cycled), circuits whose output registers alias reused registers and input registers. Oracle on the recorded transcript: (i) after a sender's input stage nothing is addressed to a non-output party, (ii) input-stage shares of an output register go only to the owner of that input, (iii) opening messages carry values only at output registers and only to output parties, (iv) non-output parties return an empty vector. distinct = (n, evaluator, output set, features); non-trivial = at least one party is outside the output set".into();
     rep.assumptions = vec!["stages are recognised by the engine's phase labels 'labels' / 'masked inputs'".into()];
-    let n_runs = if tier == "thorough" { 4000 } else { 360 };
+    let n_runs = if tier == "thorough" { 6000 } else { 1200 };
     let outs = parallel_for(n_runs, threads(), |i| one(i, seed));
     for o in outs {
         rep.evaluations += 1;
